@@ -3,6 +3,16 @@ import numpy
 from sx import plspec, cfg
 from . import common as C
 
+
+def _clear_caches(ns_):
+    """empty the configurator-level caches if the current tree has any (lru_cache on the class, pinned tree); a no-op for per-instance caches"""
+    for name in ("ge_polyhedron", "leafs"):
+        f = ns_.cc.StingyConfigurator.__dict__.get(name)
+        f = getattr(f, "fget", f)
+        cc_ = getattr(f, "cache_clear", None)
+        if cc_ is not None:
+            cc_()
+
 FOREIGN = ["__foreign__", "zz-unknown"]
 
 
@@ -15,8 +25,8 @@ def observe(spec, inp):
     out = {"error": None}
     part = spec["part"]
     try:
-        n.cc.StingyConfigurator.ge_polyhedron.fget.cache_clear()
-        n.cc.StingyConfigurator.leafs.cache_clear()
+        _clear_caches(n)
+        _clear_caches(n)
         m0 = plspec.build(n, spec["model"], {})
         M0 = m0.to_ge_polyhedron(active=True)
         cols = [v.id for v in M0.A.variables]
